@@ -355,6 +355,38 @@ def handle (cmd : String) (hd : List String) (vs : List (List K)) : Reply K :=
         let w := pmtmWeights meth x lams SkA nfft (scalAt vs 2)
         let mean := mtMean meth SkA w nfft lams.length
         .ok (Sk ++ [w.flatten, mean]))
+  | "minvarx" =>
+      -- minvarx order nfft | x | sampling      → psd, AR vector (leading 1), reflection coefficients
+      let nfft := natAt hd 1
+      let m := natAt hd 0
+      if m = 0 || nfft = 0 then .error "value" else
+      needTw nfft (fun t =>
+        let x := vecAt vs 0
+        if m = 1 then
+          let rho := (burgInit x).rho
+          .ok [minvarPsd t [1] rho (scalAt vs 1) nfft, [1], []]
+        else
+        match arburg x (m - 1) false (fun _ _ => false) with
+        | .ok st => .ok [minvarPsd t ((1 : K) :: st.a) st.rho (scalAt vs 1) nfft, (1 : K) :: st.a, st.ref]
+        | .error e => .error e)
+  | "minvarident" =>
+      -- minvarident order | x    → [ψ_K (K < m)], [Σ_{i-j=K} (R⁻¹)_{ij}] with R the Toeplitz matrix of the Burg model
+      let m := natAt hd 0
+      let x := vecAt vs 0
+      if m < 2 then .error "value" else
+      match arburg x (m - 1) false (fun _ _ => false) with
+      | .error e => .error e
+      | .ok st =>
+        let a := (1 : K) :: st.a
+        let psi := minvarPsi a st.rho (2 * m)
+        let r := poly2ac st.a st.rho
+        let R : Mat K := vec m (fun i => vec m (fun j => if j ≤ i then nth r (i - j) else conj (nth r (j - i))))
+        match inverse R m with
+        | none => .error "singular"
+        | some Ri =>
+          .ok [vec m (nth psi),
+               vec m (fun k => sumR (m - k) (fun j => mentryM Ri (j + k) j)),
+               vec m (fun k => sumR (m - k) (fun j => mentryM Ri j (j + k)))]
   | "convhist" =>
       -- convhist isComplex nfft cur set:two get:center ... | p
       match sideOf (strAt hd 2), (hd.drop 3).mapM opOf with
